@@ -386,6 +386,34 @@ func runC12(w *World, c *Check) {
 	if arms == 0 {
 		c.Fail("C12.krberror", fk, "arms", where, "sendToKDC has KRB-ERROR branches", "none found")
 	}
+	// every transport attempt, first or fall-back, looks at its error for a KRB-ERROR and hands it
+	// back as such: the exchanges above recognise a KDC's error (PREAUTH_REQUIRED, WRONG_REALM …)
+	// by its type, a KRB-ERROR wrapped into a plain error is treated as a network failure
+	for _, fa := range subjects {
+		for _, call := range fa.Calls(sendRe) {
+			cv, _ := call.(*ssa.Call)
+			if cv == nil {
+				continue
+			}
+			errV := errExtract(cv, 1)
+			okA, asserted := krbAssert(fa, errV)
+			returned := false
+			for _, x := range fa.Exits() {
+				rs := RetResults(x.Ret)
+				if len(rs) == 2 {
+					for _, a := range asserted {
+						if rs[1] == a {
+							returned = true
+						}
+						if mi, isMI := rs[1].(*ssa.MakeInterface); isMI && (mi.X == a || fa.R.R(mi.X) == fa.R.R(a)) {
+							returned = true // (the asserted value may sit in a local whose field is also read)
+						}
+					}
+				}
+			}
+			c.Decide(errV != nil && len(okA) > 0 && returned, "C12.krberror", fk, fmt.Sprintf("typed:%s#%d", strings.TrimPrefix(fa.CalleeName(call), "client.(*Client)."), nthCall(fa, call)), w.Pos(InstrPos(call)), "a KRB-ERROR returned by this transport attempt is asserted and handed back as a KRBError", "the error of this send is never asserted to messages.KRBError and returned as such")
+		}
+	}
 	// each KRBError assertion is applied to the error whose failure it handles: the operand is the
 	// value of the nearest dominating `err != nil` test (identity: the UDP and TCP errors are
 	// different values that a rendering by type cannot tell apart)
@@ -471,6 +499,40 @@ func runC12(w *World, c *Check) {
 		if okDL {
 			pass := la.MatchGuard(EqPass("nil", `net\.Conn\.SetDeadline\(.*\)`))
 			okDL = len(pass) > 0 && la.PathToInstrAvoiding(pass, sends[0]) == nil
+		}
+		// a reply that was received is the answer: from the edge on which the send succeeded the
+		// function returns it — it does not go round the loop again (whatever the reply says is for
+		// the exchange above to decide; dropping it here loses a KRB-ERROR's code)
+		if len(sends) == 1 {
+			sv, _ := sends[0].(*ssa.Call)
+			okRet := false
+			detail := "no test of the send's error"
+			if sv != nil {
+				errV := errExtract(sv, 1)
+				nilEdges, _ := nilTestEdges(la, errV)
+				if len(nilEdges) > 0 {
+					okRet = true
+					for _, e := range nilEdges {
+						// can the loop header be reached again from the success edge?
+						seen := map[*ssa.BasicBlock]bool{}
+						st := []*ssa.BasicBlock{e.To()}
+						for len(st) > 0 {
+							nb := st[len(st)-1]
+							st = st[:len(st)-1]
+							if seen[nb] {
+								continue
+							}
+							seen[nb] = true
+							if nb == hdr {
+								okRet = false
+								detail = "after a successful send the loop can continue with the next server: the reply is dropped"
+							}
+							st = append(st, nb.Succs...)
+						}
+					}
+				}
+			}
+			c.Decide(okRet, "C12.loop", lk.fk, "reply-returned", lw, "a reply received from a server is returned, not skipped", detail)
 		}
 		c.Decide(okDL, "C12.loop", lk.fk, "deadline-before-send", lw, "a deadline is set (and its error checked) before every send, so a silent server cannot block", "SetDeadline does not dominate the send")
 		// the deadline is taken per connection: the clock is read inside the loop, so a server that
@@ -563,7 +625,7 @@ func runC12(w *World, c *Check) {
 			nConnWrite++
 			ps, total := dc.fa.BufferPlaces(cm.Args[len(cm.Args)-1])
 			wrs = append(wrs, placesString(ps)+" (length "+total+")")
-			if len(ps) == 2 && fullMatch(`BE32\(len\(`+q(reqName)+`\)\)@0:4`, ps[0].String()) && ps[1].What == reqName && ps[1].Off == "4" && total == "4+len("+reqName+")" {
+			if len(ps) == 2 && fullMatch(`BE32\((?:uint32\()?len\(`+q(reqName)+`\)\)?\)@0:4`, ps[0].String()) && ps[1].What == reqName && ps[1].Off == "4" && total == "4+len("+reqName+")" {
 				okWr = true
 			} else {
 				okWr = false
@@ -878,4 +940,22 @@ func derivesFrom(v, a ssa.Value) bool {
 		}
 	}
 	return false
+}
+
+// nthCall: the ordinal of a call among the calls of the same callee in its function (stable name
+// for an obligation that does not depend on line numbers).
+func nthCall(fa *FuncAn, ci ssa.CallInstruction) int {
+	n := 0
+	name := fa.CalleeName(ci)
+	for _, b := range fa.Fn.Blocks {
+		for _, in := range b.Instrs {
+			if c2, ok := in.(ssa.CallInstruction); ok && fa.CalleeName(c2) == name {
+				n++
+				if c2 == ci {
+					return n
+				}
+			}
+		}
+	}
+	return n
 }
